@@ -145,6 +145,10 @@ def run_shard(spec, ctx):
 
 
 # ---- reference parsers ---------------------------------------------------------
+class Either(int):
+    """reference verdict 'reject, or accept with exactly this value'"""
+
+
 def norm(s):
     return unicodedata.normalize("NFKC", s).strip()
 
@@ -162,7 +166,9 @@ def ref_size(s):
         return None
     n, k, i, b = m.groups()
     if i and not k:
-        return None
+        # "31i" / "31iB": a binary marker without a prefix.  Not a documented spelling, but the parser's own table gives it
+        # multiplier 1 (the only reading it could have), so both rejecting it and reading it as n bytes are accepted.
+        return Either(int(n))
     return int(n) * (SIZE_MULT_I[k] if i else SIZE_MULT[k])
 
 
@@ -223,7 +229,7 @@ def run_case(case, ctx):
                           "%s(%r) returned %r; %s" % (name, s, r[1], "the string is not a documented spelling" if exp is None else "its reading is %r" % exp), parser=name)
             else:
                 # rejection is always acceptable for a non-documented spelling; a documented one must parse
-                documented = exp is not None and norm(s) == s and s.isascii()
+                documented = exp is not None and not isinstance(exp, Either) and norm(s) == s and s.isascii()
                 ctx.check(not documented, "documented-rejected", "%s(%r) raised %r but the spelling is documented (= %r)" % (name, s, r[1], exp), parser=name)
         ctx.note(sig=s, nontrivial=True, classes=["malformed", "malformed:" + case["op"]], sample=case)
     elif fam == "printparse":
